@@ -61,6 +61,8 @@ def lo(w, t):
     tw = width(t)
     if k == 'c':
         return ('c', t[1] & ((1 << w) - 1))
+    if k == 'immsym':
+        return t          # symbolic immediate: the same constant at whatever width it is used
     if tw == w:
         return t
     if k in ('zx', 'sx'):
@@ -316,6 +318,7 @@ class Machine:
                     finals.append(s); break
                 n = nodes[i]
                 if n[0] == 'label':
+                    s.events.append(('label', n[1]))
                     i += 1; continue
                 if n[0] == 'pseudo':
                     pseudo(s, n); i += 1; continue
@@ -337,12 +340,12 @@ class Machine:
                     visits = dict(visits); visits[i] = visits.get(i, 0) + 1
                     if visits[i] > 2:
                         break
-                    s2 = s.copy(); s2.cond.append((c, True))
+                    s2 = s.copy(); s2.cond.append((c, True)); s2.events.append(('branch', c, True))
                     if j is None:
                         s2.events.append(('jump_out', tgt)); finals.append(s2)
                     else:
                         work.append((j, s2, visits))
-                    s.cond.append((c, False))
+                    s.cond.append((c, False)); s.events.append(('branch', c, False))
                     i += 1
                     if len(work) + len(finals) > max_paths:
                         raise Unknown('too many paths through emitted code')
